@@ -524,7 +524,9 @@ pub fn excwalk_session(rep: &mut Report, check: &str, seed: u64, verbose: bool) 
         sess.poke32(4 * v, t | ((rng.u8() as u32) << 24));
     }
     let sp_dram = rng.chance(1, 2);
-    let sp_base = if sp_dram { 0x5f0000 + (rng.below(0x8000) as u32 & !3) } else { 0xfff000 + (rng.below(0xe00) as u32 & !3) };
+    // on-chip RAM stacks stay below H'FFFD10: the MES set_handler call (used for vector maintenance
+    // below) saves the caller's GOT pointer at H'FFFD10 + 4 x vector, by design
+    let sp_base = if sp_dram { 0x5f0000 + (rng.below(0x8000) as u32 & !3) } else { 0xfff000 + (rng.below(0xd00) as u32 & !3) };
     let mut r = Regs { er: gen::regs(&mut rng), ccr: rng.u8(), pc: code_at(&mut rng, code_dram) };
     r.er[7] = sp_base | (if rng.chance(1, 3) { 0 } else { (rng.u8() as u32) << 24 });
     sess.set_regs(&r);
@@ -543,6 +545,11 @@ pub fn excwalk_session(rep: &mut Report, check: &str, seed: u64, verbose: bool) 
         let before = sess.regs();
         let choice = rng.below(10);
         let depth = shadow.len();
+        if verbose {
+            let sp = before.er[7] & 0xffffff;
+            let fr: Vec<u8> = (0..8).map(|k| crate::mon::real_peek(&sess.cpu, sp.wrapping_add(k)).unwrap_or(0)).collect();
+            println!("  action {}: depth {} pc={:06x} sp={:08x} ccr={:02x} mem[sp..]={:02x?}", step, depth, before.pc, before.er[7], before.ccr, fr);
+        }
         if rng.chance(1, 4) {
             let v = *rng.pick(&hot);
             let dram = rng.chance(1, 2);
@@ -557,7 +564,10 @@ pub fn excwalk_session(rep: &mut Report, check: &str, seed: u64, verbose: bool) 
                 s2.er[1] = argp;
                 sess.set_regs(&s2);
                 sess.load(s2.pc, &[0x57, 0x00]);
-                let _ = sess.act(Action::Step);
+                let o = sess.act(Action::Step);
+                if verbose {
+                    println!("  action {} set_handler({}, {:06x}) at pc={:06x} sp={:08x}: {:?}; real changes {:x?}", step, v, a, s2.pc, s2.er[7], o.real, o.real_changes);
+                }
                 sess.set_regs(&before);
                 maintained[v as usize] |= 1;
             } else {
